@@ -8,8 +8,8 @@
  *   ssl->decrypt                  assumed: the contract proved for the four TLS 1.3 / 1.2 AEAD
  *                                 openers in C02 (fails for records shorter than the tag; verdict
  *                                 otherwise chosen by the input); records the call in gh_dec_ok
- *   tls13ParseHandshakeMessage    replaced by a contract: moves the cursor forward inside the record,
- *                                 may change hsState / flags / err / decState / outlen arbitrarily
+ *   tls13ParseHandshakeMessage    replaced by its contract (cursor clauses ENFORCED in unit C06/tls13_hs_transitions):
+ *                                 moves the cursor forward inside the record; may change hsState / flags / err / decState
  *   tls13EncodeAlert, sslEncodeResponse   assumed models: write only into the buffer they are given,
  *                                 return SSL_FULL, an error, or success (chosen by the input)
  */
@@ -40,7 +40,7 @@ struct __attribute__((packed)) inputs
     uint8_t hs_state, hs_err;
     uint32_t hs_flags;
     uint32_t outlen, outsize;
-    uint8_t pskChosen, pskHasParams, callerAlertDesc;
+    uint8_t pskChosen, pskHasParams, callerAlertDesc, fragPending;
     uint32_t pskMaxEarly;
     unsigned char buf[BUFN];
 };
@@ -51,6 +51,7 @@ static psTls13Psk_t g_psk;
 static psTls13SessionParams_t g_pskParams;
 static unsigned char g_buf[BUFN];  /* the receive buffer: size BUFN, the first g_len bytes are received data */
 static unsigned char g_outbuf[32];
+static unsigned char g_fragDummy[8];
 /* the in/out arguments of the decoder, one object so that the frame has one target */
 static struct { unsigned char *inp; uint32 len, remaining, reqLen; int32 error; unsigned char alertLevel, alertDesc; } g_o;
 #define g_inp g_o.inp
@@ -104,7 +105,7 @@ int32 sslEncodeResponse(ssl_t *ssl, psBuf_t *out, uint32 *requiredLen)
 static int32_t tls13ParseHandshakeMessage(ssl_t *ssl, unsigned char **bufStart, unsigned char *bufEnd)
 __CPROVER_requires(ssl == &g_ssl)
 __CPROVER_requires(__CPROVER_same_object(*bufStart, bufEnd) && *bufStart <= bufEnd)
-__CPROVER_assigns(*bufStart, g_ssl.hsState, g_ssl.flags, g_ssl.err, g_ssl.decState, gh_hs_calls)
+__CPROVER_assigns(*bufStart, g_ssl.hsState, g_ssl.flags, g_ssl.err, g_ssl.decState, g_ssl.fragMessage, gh_hs_calls)
 __CPROVER_ensures(__CPROVER_same_object(*bufStart, bufEnd) &&
                   __CPROVER_POINTER_OFFSET(*bufStart) >= __CPROVER_POINTER_OFFSET(__CPROVER_old(*bufStart)) &&
                   __CPROVER_POINTER_OFFSET(*bufStart) <= __CPROVER_POINTER_OFFSET(bufEnd))
@@ -112,8 +113,12 @@ __CPROVER_ensures(__CPROVER_same_object(*bufStart, bufEnd) &&
    (tls13FragMessageReadInit/Continue take everything readable; key activation only follows a complete message) */
 __CPROVER_ensures(__CPROVER_return_value != SSL_PARTIAL ||
                   (__CPROVER_POINTER_OFFSET(*bufStart) == __CPROVER_POINTER_OFFSET(bufEnd) && g_ssl.flags == __CPROVER_old(g_ssl.flags) && g_ssl.hsState == __CPROVER_old(g_ssl.hsState)))
-/* a message that parsed (rc >= 0) consumed at least its 4-byte handshake header */
-__CPROVER_ensures(__CPROVER_return_value < 0 || __CPROVER_POINTER_OFFSET(*bufStart) >= __CPROVER_POINTER_OFFSET(__CPROVER_old(*bufStart)) + 4)
+/* a message that parsed (rc >= 0) consumed at least its 4-byte handshake header, or completed a pending
+   fragment buffer (then >= 1 byte and the buffer is released) */
+__CPROVER_ensures(__CPROVER_return_value < 0 ||
+                  __CPROVER_POINTER_OFFSET(*bufStart) >= __CPROVER_POINTER_OFFSET(__CPROVER_old(*bufStart)) + 4 ||
+                  (__CPROVER_old(g_ssl.fragMessage) != NULL && g_ssl.fragMessage == NULL &&
+                   __CPROVER_POINTER_OFFSET(*bufStart) >= __CPROVER_POINTER_OFFSET(__CPROVER_old(*bufStart)) + 1))
 __CPROVER_ensures(gh_hs_calls == __CPROVER_old(gh_hs_calls) + 1)
 ;
 
@@ -174,6 +179,7 @@ HARNESS_BEGIN
     g_ssl.decrypt = model_decrypt;
     g_ssl.recordHeadLen = TLS_REC_HDR_LEN;
     g_ssl.activeVersion = v_tls_1_3 | v_tls_negotiated;
+    g_ssl.fragMessage = in.fragPending ? g_fragDummy : NULL;   /* only compared with NULL here */
     g_ssl.sec.tls13ChosenPsk = NULL;
     g_psk.params = in.pskHasParams ? &g_pskParams : NULL;
     g_pskParams.maxEarlyData = in.pskMaxEarly;
